@@ -22,7 +22,7 @@ class Job:
     def __init__(self, name, source, entry, enforce=None, replace=(), loop_contracts=False, defines=None, flags=None,
                  unwind=None, timeout=120, kind="enforce", params=None, kernels=(), bounded=None, spec_loops=True,
                  min_obligations=1, expect_fail=None, backend="sat", mem_gb=8, object_bits=None, no_base_flags=False,
-                 replay=None, ignore=()):
+                 replay=None, ignore=(), shards=1):
         self.name = name
         self.source = source  # harness C file (absolute), includes the generated kernels
         self.entry = entry
@@ -45,6 +45,7 @@ class Job:
         self.object_bits = object_bits
         self.no_base_flags = no_base_flags
         self.replay = replay  # name of replay routine
+        self.shards = shards  # split the obligations over this many parallel cbmc processes
         self.ignore = [re.compile(x) for x in ignore]  # obligations (name+description) excluded, each documented in evidence
 
 
@@ -125,28 +126,75 @@ def run_job(job, workdir, gen_dir):
         cmd3 += ["--cvc5"]
     elif job.backend == "z3":
         cmd3 += ["--z3"]
-    with open(outj, "wb") as fo:
-        rc, _, err, t3 = _run(cmd3, job.timeout, job.mem_gb, stdout=fo)
     res["cmds"].append(" ".join(cmd3))
-    res["seconds"] = round(t3, 2)
-    if rc is None:
-        res["reason"] = "timeout after %ds (%s)" % (job.timeout, job.backend)
-        return res
-    try:
-        data = json.load(open(outj))
-    except Exception as e:
-        res["reason"] = "cbmc output unparsable (rc=%s): %s %s" % (rc, e, err.decode(errors="replace")[-500:])
-        return res
-    results = None
+    groups = [None]
+    if job.shards > 1:
+        rc, out, err, _ = _run(["cbmc", src_gb, "--no-standard-checks"] + ([] if job.no_base_flags else BASE_FLAGS) + job.flags
+                               + ["--show-properties", "--json-ui"], 120, 4)
+        names = []
+        try:
+            for e in json.loads(out.decode(errors="replace")):
+                for p in e.get("properties", []):
+                    names.append(p["name"])
+        except Exception as e:
+            res["reason"] = "cannot list properties for sharding: %s" % e
+            return res
+        hard = [n for n in names if re.search(r"\.(postcondition|loop_invariant_base|loop_invariant_step|assertion)\.\d+$", n) and not n.startswith("__CPROVER")]
+        rest = [n for n in names if n not in set(hard)]
+        k = max(1, job.shards - min(len(hard), job.shards // 2))
+        groups = [[h] for h in hard[: job.shards // 2]]
+        extra_hard = hard[job.shards // 2:]
+        rest_groups = [rest[i::k] + extra_hard[i::k] for i in range(k)]
+        groups += [g for g in rest_groups if g]
+    results = []
     msgs = []
-    for e in data:
-        if "result" in e:
-            results = e["result"]
-        if "messageText" in e:
-            msgs.append(e["messageText"])
-    if results is None:
-        res["reason"] = "cbmc gave no result (rc=%s): %s" % (rc, " | ".join(msgs[-4:])[-1200:])
-        return res
+    t3 = 0.0
+
+    def run_group(gi):
+        g = groups[gi]
+        oj = outj if g is None else outj + ".%d" % gi
+        cmd = list(cmd3)
+        if g is not None:
+            for n in g:
+                cmd += ["--property", n]
+        with open(oj, "wb") as fo:
+            rc, _, err, t = _run(cmd, job.timeout, job.mem_gb, stdout=fo)
+        return gi, rc, err, t, oj
+
+    if len(groups) == 1:
+        outs = [run_group(0)]
+    else:
+        with ThreadPoolExecutor(max_workers=len(groups)) as ex:
+            outs = list(ex.map(run_group, range(len(groups))))
+    for gi, rc, err, t, oj in outs:
+        t3 = max(t3, t)
+        if rc is None:
+            res["seconds"] = round(t3, 2)
+            res["reason"] = "timeout after %ds (%s)%s" % (job.timeout, job.backend, "" if groups[gi] is None else " in shard %d (%s ...)" % (gi, groups[gi][0]))
+            return res
+        try:
+            data = json.load(open(oj))
+        except Exception as e:
+            res["reason"] = "cbmc output unparsable (rc=%s): %s %s" % (rc, e, err.decode(errors="replace")[-500:])
+            return res
+        finally:
+            if groups[gi] is not None and not os.environ.get("VERIF_KEEP"):
+                try:
+                    os.remove(oj)
+                except OSError:
+                    pass
+        got = None
+        for e in data:
+            if "result" in e:
+                got = e["result"]
+            if "messageText" in e:
+                msgs.append(e["messageText"])
+        if got is None:
+            res["reason"] = "cbmc gave no result (rc=%s): %s" % (rc, " | ".join(msgs[-4:])[-1200:])
+            return res
+        want = None if groups[gi] is None else set(groups[gi])
+        results += [r for r in got if want is None or r.get("property") in want]
+    res["seconds"] = round(t3, 2)
     if any("ignoring" in m and "forall" in m for m in msgs):
         res["reason"] = "quantifier ignored by back end"
         return res
